@@ -18,7 +18,7 @@ LEVEL_TEXT = ("Static structural proof of necessary conditions: (R12.1) every ke
               "sidecar column < sidecar key < row, row is compared numerically, and sort_issues sorts with a key "
               "function only; (R12.5) replace_tag_references converts every non-container, non-number leaf with str(). "
               "That offsets lie inside the text/span and select the quoted fragment is NOT decided.")
-LEVEL_EXTRA = 'Added after the seeded evaluation: (R12.6) an issue taken from a list, modified and listed again is a copy.'
+LEVEL_EXTRA = 'Added after the seeded evaluation: (R12.6) an issue taken from a list, modified and listed again is a copy. (R12.7) the suffix-appending step skips issues it already decorated; (R12.8) every parameter of a validator function is used; textual sort keys are compared as str.'
 
 ENTRY_POINTS = ["HedValidator.validate", "SidecarValidator.validate", "SpreadsheetValidator.validate",
                 "schema_compliance.check_compliance", "BidsDataset.validate", "Sidecar.validate", "BaseInput.validate"]
@@ -192,3 +192,78 @@ def run(ctx):
                           "listed twice, its code is overwritten for both entries, and context decoration appends the location suffix "
                           "to its message twice" % (name, lst), desc="%s: re-listed issue variant `%s` is a copy" % (f.short, name))
     ctx.floor("R12.6", "issue variants built from a list element", n_alias, 1)
+
+    # ---------------- R12.7: the decoration step is idempotent
+    ctx.rule("R12.7", "the step that appends the location suffix to a message skips issues it has already decorated")
+    n_suffix = 0
+    for f in prog.functions.values():
+        if f.module.name != "hed.errors.error_reporter":
+            continue
+        for st in walk_no_nested(f.node):
+            if isinstance(st, ast.AugAssign) and isinstance(st.op, ast.Add) and isinstance(st.target, ast.Subscript) and \
+                    isinstance(st.target.slice, ast.Constant) and st.target.slice.value == "message":
+                n_suffix += 1
+                ctx.saw(f)
+                vf = view(ctx, f)
+                node = vf.cfg.node_of(st)
+                g = vf.guard_for(node, lambda t: any(isinstance(x, ast.Compare) and any(isinstance(o, (ast.NotIn, ast.In)) for o in x.ops)
+                                                     and isinstance(x.left, ast.Constant) and x.left.value in ("char_index", "char_index_end")
+                                                     for x in ast.walk(t))) if node is not None else None
+                ctx.check(g is not None, "R12.7", f.qualname, st, loc(f, st),
+                          "`%s` appends the location suffix unconditionally: an issue that passes through context decoration a second "
+                          "time (the list returned by one entry point handed to add_context_and_filter again) gets the suffix twice"
+                          % norm(st)[:60], desc="suffix appended only to issues without char_index yet")
+    ctx.floor("R12.7", "message-suffix appends in the error reporter", n_suffix, 1)
+
+    # ---------------- R12.4+: sort keys are comparable whatever the context values are
+    srt = prog.find_function("error_reporter.sort_issues")
+    keyf = srt.nested.get("_get_keys") if hasattr(srt, "nested") else None
+    if keyf is None:
+        raise AnalysisError("R12.4 anchor: sort_issues._get_keys vanished")
+    ctx.saw(keyf)
+    n_key = 0
+    for c in walk_no_nested(keyf.node):
+        if isinstance(c, ast.Call) and isinstance(c.func, ast.Attribute) and c.func.attr == "append" and c.args:
+            arg = c.args[0]
+            inner = arg.args[0] if isinstance(arg, ast.Call) and isinstance(arg.func, ast.Name) and arg.func.id in ("str", "int", "float") and arg.args else arg
+            if isinstance(inner, ast.Call) and call_name(inner) == "get" and len(inner.args) == 2 and isinstance(inner.args[1], ast.Constant) \
+                    and isinstance(inner.args[1].value, str):
+                n_key += 1
+                ctx.check(arg is not inner and arg.func.id == "str", "R12.4", keyf.qualname, c, loc(keyf, c),
+                          "a textual sort key is taken as it comes (`%s`): a spreadsheet without column names pushes integer column "
+                          "contexts, which cannot be compared with the '' default of issues that have no column — sort_issues raises "
+                          "TypeError and the table entry point returns nothing" % norm(arg)[:40], desc="textual sort keys compared as str")
+    ctx.floor("R12.4", "textual sort keys in _get_keys", n_key, 1)
+
+    # ---------------- R12.8: what callers pass for locating / coding an issue is used
+    ctx.rule("R12.8", "every parameter of a validator function is used (an offset or an override code that is accepted but ignored mislocates or miscodes the issue)")
+    UNUSED_OK = {
+        ("DefValidator._validate_def_contents", "hed_validator"): "kept for call compatibility; the content test needs no validator",
+        ("DefValidator.validate_def_value_units", "allow_placeholders"): "placeholders are screened by the tag validator before this point",
+        ("SpreadsheetValidator._run_onset_nan_checks", "onsets"): "stub (returns immediately)",
+        ("SpreadsheetValidator._run_onset_nan_checks", "error_handler"): "stub (returns immediately)",
+        ("SpreadsheetValidator._run_onset_nan_checks", "row_adj"): "stub (returns immediately)",
+        ("is_text_value_class", "text_string"): "value-class predicate that accepts everything by definition",
+    }
+    n_par = 0
+    for f in prog.functions.values():
+        if not f.module.name.startswith("hed.validator"):
+            continue
+        body = [b for b in f.node.body if not (isinstance(b, ast.Expr) and isinstance(b.value, ast.Constant))]
+        if all(isinstance(b, (ast.Pass, ast.Raise)) for b in body):
+            continue
+        used = {x.id for x in ast.walk(f.node) if isinstance(x, ast.Name) and isinstance(x.ctx, ast.Load)}
+        for p_ in f.params():
+            if p_ in ("self", "cls") or p_.startswith("_"):
+                continue
+            n_par += 1
+            if p_ in used:
+                continue
+            if (f.short, p_) in UNUSED_OK:
+                ctx.ok("R12.8", "%s(%s) unused on purpose — %s" % (f.short, p_, UNUSED_OK[(f.short, p_)]), loc(f, f.node))
+                continue
+            ctx.saw(f)
+            ctx.violation("R12.8", f.qualname, "parameter %s" % p_, loc(f, f.node),
+                          "%s accepts `%s` and never reads it: callers pass it to place the issue inside a longer tag (the value of "
+                          "`Def/MyDef/ab$c`) or to give it the Def code, so the offsets select the wrong characters / the code is lost" % (f.short, p_))
+    ctx.floor("R12.8", "parameters of validator functions", n_par, 150)
